@@ -311,7 +311,10 @@ impl std::fmt::Display for SD {
 
 // ---------- generator ----------
 pub fn gen_name(r: &mut Rng) -> String {
-    const ASCII: [&str; 12] = ["a", "b", "x", "id", "G", "GG", "name", "ty", "data", "Foo", "field_1", "A_long_identifier_name"];
+    // includes what derive(Schema) records for raw identifiers (`r#type`), names with
+    // leading / trailing punctuation and white space, and look-alikes of Rust paths
+    const ASCII: [&str; 22] = ["a", "b", "x", "id", "G", "GG", "name", "ty", "data", "Foo", "field_1", "A_long_identifier_name",
+        "r#type", "r#", "r#match", "_", "__x", " a", "a ", "a::b", "T<U>", "0"];
     const MULTI: [&str; 6] = ["é", "名前", "π2", "ж", "𝔘", "a\u{0301}"];
     match r.below(10) {
         0 => String::new(),
